@@ -47,6 +47,21 @@ def _is_xvalue_of_var(fn, n):
     return None
 
 
+def vtag(v):
+    """Stable identification of a violation for finding keys: variable, kind and the consuming construct (so that a known finding
+    about one consumer does not hide a new consumer of the same variable in the same function)."""
+    how = v['site']['how']
+    if how.startswith('constructs '):
+        via = 'ctor ' + how[len('constructs '):].replace(' from it', '')
+    elif how.startswith('passes it to '):
+        via = 'call ' + how[len('passes it to '):].split(',')[0]
+    elif how.startswith('passes it as rvalue to '):
+        via = 'call ' + how[len('passes it as rvalue to '):]
+    else:
+        via = how
+    return '%s %s via %s' % (v['site']['name'], v['kind'], via)
+
+
 class MoveAnalysis:
     def __init__(self, tu):
         self.tu = tu
@@ -185,10 +200,10 @@ class MoveAnalysis:
                     if a in setc:
                         lca = a
                         break
-                if lca is None:
-                    continue
-                lo = fn.nodes[lca]
-                is_expr = 't' in lo or lo['cls'] in ('InitListExpr',)
+                # no common ancestor: the two belong to different constructor initialisers (or an initialiser and the body), which
+                # are sequenced statements of the control-flow graph
+                lo = fn.nodes[lca] if lca is not None else {'cls': '(none)'}
+                is_expr = lca is not None and ('t' in lo or lo['cls'] in ('InitListExpr',))
                 if lca == cons or (is_expr and lo['cls'] not in ('LambdaExpr',)):
                     # same full expression: which children of the LCA hold the consumer and the use?
                     def child_under(node):
